@@ -57,6 +57,10 @@ def run_shard(spec, res):
             if not common.js_supported(case):
                 res.count('skipped_not_language_neutral')
                 continue
+            if n % 11 == 6 and not case['q'].get('with'):
+                # array tables take their column names from the caller: a header modifier changes nothing, in the result or in the arrays
+                case['q']['with'] = rng.choice(['header', 'noheader', 'headers', 'noheaders'])
+                res.count('cases_with_header_modifier')
             ref = refsem.run(case['q'], case['A'], case['B'], case['a_names'], case['b_names'])
             ctx = qast.Ctx(case['a_names'], case['b_names'])
             case['query_text'] = qast.render(case['q'], ctx, 'js')
@@ -79,7 +83,7 @@ def summarize(tier, seed, m):
     shapes = sorted(k[6:] for k in m['counters'] if k.startswith('shape:'))
     return {
         'rule': 'the generators of C01 (select / where / stars / EXCEPT / UNNEST / joins), C02 (ORDER BY / DISTINCT / DISTINCT COUNT / TOP / LIMIT), C03 (aggregates, neutral arguments), C04 (joins x downstream shapes), C05 (UPDATE) and C07 (header naming with user functions) restricted to the language-neutral expression vocabulary and rendered into JS syntax; every case executed by the node driver on the working tree with deep JSON snapshots, row identity and a scribble test of the input and join arrays; compared with the reference (rows by value and order, header, error class and record number). distinct_nontrivial = distinct (JS query, tables) with a non-empty reference result or a predicted error.',
-        'required': ['js_cases', 'predicted_errors'] + ['family:%d' % k for k in range(6)],
+        'required': ['js_cases', 'predicted_errors', 'cases_with_header_modifier'] + ['family:%d' % k for k in range(6)],
         'extra': {'shapes_seen': shapes},
         'assumptions': ['rv/model/refsem.py; anything where the host languages legitimately differ (null stringification, string <-> number coercion, integer division, negative modulo, non-BMP ordering) is outside the vocabulary'],
     }
